@@ -81,6 +81,8 @@ package schemabuilder
 //@   assume funcCtx.hasError ==> len(out) >= (ite(funcCtx.hasRet, 2, 1))
 //@   ensures err == nil && (retType is *graphql.NonNull) ==> !(reflectKind(reflectValueOf(result)) == 22 && reflectIsNil(reflectValueOf(result)))
 //@   ensures err == nil && !funcCtx.hasRet ==> result == any(true)
+// C16: the resolver's own error is the call's error, and no value accompanies it
+//@   ensures funcCtx.hasError && !reflectIsNil(old(out[ite(funcCtx.hasRet, 1, 0)])) ==> err != nil && result == nil
 
 // ---- C14 / C01 (batch variant): one result per source, in source order; with NonNullable enforced, every slot of a
 // successful result was filled from a valid, non-nil-pointer map entry (a missing entry or a nil pointer is an error).
@@ -91,6 +93,8 @@ package schemabuilder
 //@   ghost okk map[int]bool
 //@   call Value.Interface#2 assert reflectIsValid(res) && !(reflectKind(res) == 22 && reflectIsNil(res))
 //@   call Value.Interface#2 ghost okk[idx] = true
+// C16: the batch function's own error is the call's error - whatever else it returned, also when it has no result map
+//@   ensures funcCtx.hasError && !reflectIsNil(old(out[len(out)-1])) ==> err != nil && result == nil
 //@   ensures err == nil ==> len(result) == len(idxValues)
 //@   ensures err == nil && funcCtx.hasRet && funcCtx.enforceNoNilResps ==> forall k int :: 0 <= k && k < len(idxValues) ==> okk[k]
 //@   loop 1 invariant 0 <= i && i <= len(idxValues) && len(res) == len(idxValues) && fresh(res)
